@@ -84,6 +84,30 @@ CHECKS = {
         design="§8 C20",
         technique="Lean 4 proof (definitional + derive-decoder model) + L3 differential over type parameters",
         note=TB + " JSON string escaping of the model printer is validated by the stream, not proved."),
+    "C07": dict(
+        text="Machine-checked proofs over the model of the reply table and of dispatch_reply: every entry the macro's fold can build holds mutually compatible outcomes "
+             "(invariant by induction over the fold), so for every table and declaration order a success runs the method declared success (with gas, events, message "
+             "responses; data per C09) else the always method with the full result, a failure the error/always method, uncovered outcomes are passed through, unknown ids "
+             "are errors. Tie: sv::dispatch_reply of compiled generated contracts with echo handlers on crafted replies, model vs real vs an independent python statement; "
+             "source forms of the table construction recognised on every run.",
+        design="§8 C07",
+        technique="Lean 4 proof (fold invariant + position-independent lookup) + L2 differential on dispatch_reply",
+        note=TB + " Reply handlers must return the contract's own error type (the generated dispatcher performs no conversion)."),
+    "C08": dict(
+        text="Machine-checked proofs: table ids are distinct and numeric ids injective on id strings; the requested trigger is always iff an always method or both success and "
+             "error methods exist; builders on SubMsg keep message and gas limit, converters drop the gas limit; canonical payload values decode back to themselves (one and "
+             "several values). Tie: the real SubMsgMethods on the three receiver types and the round trip builder -> reply -> handler in compiled generated contracts. "
+             "Injectivity of the id *string* on method names is not proved: names outside the C01 shape can share an id (recorded limitation: foo1 / foo_1).",
+        design="§8 C08",
+        technique="Lean 4 proof + L2 differential on SubMsgMethods and dispatch_reply round trips",
+        note=TB + " Partial: id-string injectivity on the name shape is only exercised by the stream."),
+    "C09": dict(
+        text="Machine-checked proof of the documented mode table: the guard chain regenerated from reply.rs equals the documented one (obligation), and for each of the six "
+             "modes and every data / envelope-parser outcome the extraction yields the documented value or error; an extraction error is returned without a handler call. "
+             "Tie: success handlers over seven data modes x absent/valid/bad envelope/bad JSON in compiled generated contracts, with real cw_utils parsers.",
+        design="§8 C09",
+        technique="Lean 4 proof over a guard chain regenerated from source + L2 differential with crafted protobuf envelopes",
+        note=TB + " cw_utils' envelope parsers are a parameter of the model (their outcome is known to the generator by construction)."),
 }
 
 ALL = ["C%02d" % i for i in range(1, 21)]
@@ -100,14 +124,14 @@ def main():
             "enable": "SYLVIA_VERIF_HARNESS=/verif/harness/hook/hook_main.rs cargo test --offline -p sylvia-derive --features verif-hook --lib -- verif_hook::verif_entry --exact",
             "baseline_off_cmd": "cd /repo && cargo test --workspace --no-fail-fast --offline",
             "source_commits": ["f0dc71d"],
-            "fix_commits": ["a51e7a3", "fead2e3", "dbb2669", "e4181bc"],
+            "fix_commits": ["a51e7a3", "fead2e3", "dbb2669", "e4181bc", "dd80324"],
             "add_only": True,
         },
         "engines": [
             {"name": "lean", "path": "lean/", "serves_properties": sorted(CHECKS), "kind_free_text": "Lean 4 model + theorems + svmodel line-protocol driver"},
             {"name": "hook", "path": "harness/hook/", "serves_properties": ["C06", "C13", "C01", "C02", "C03", "C04", "C05"], "kind_free_text": "in-process macro expansion + source translator, compiled into sylvia-derive tests via the verif-hook feature (L1)"},
             {"name": "rt", "path": "harness/rt/", "serves_properties": ["C05", "C01", "C11", "C20"], "kind_free_text": "Rust harness calling the real runtime library (L3)"},
-            {"name": "corpus", "path": "harness/corpus/ + vlib/corpus.py", "serves_properties": ["C01", "C02", "C03", "C04", "C05"], "kind_free_text": "generated contracts compiled against /repo/sylvia with echo handlers (L2)"},
+            {"name": "corpus", "path": "harness/corpus/ + vlib/corpus.py", "serves_properties": ["C01", "C02", "C03", "C04", "C05", "C07", "C08", "C09"], "kind_free_text": "generated contracts compiled against /repo/sylvia with echo handlers (L2)"},
         ],
         "checks": [],
         "not_applicable": [],
